@@ -372,6 +372,7 @@ pub fn generate(stream: &str, tier: &str, seed: u64) -> Vec<String> {
         }
         "l1.fault" => gen_fault(&mut rng, thorough, &mut out),
         "l1.vrf" => gen_vrf(&mut rng, thorough, &mut out),
+        "l1.sched" => gen_sched(&mut rng, thorough, &mut out),
         "l1.partial" => gen_partial(&mut rng, thorough, &mut out),
         "l1.dir.c01" => {
             for i in 0..ncases {
@@ -694,6 +695,39 @@ pub fn gen_vrf(rng: &mut Rng, thorough: bool, out: &mut Vec<String>) {
             out.push(format!("adv.lookup {hu} exvrf.other:{hu}:F:2"));
             out.push(format!("adv.lookup {hu} exvrf.other:{hu}:F:3"));
             out.push(format!("adv.lookup {hu} exvrf.other:{hu}:F:4"));
+        }
+    }
+}
+
+
+/// `l1.sched` (C12): concurrent publishes under every schedule with a bounded number of preemptions.
+pub fn gen_sched(rng: &mut Rng, thorough: bool, out: &mut Vec<String>) {
+    let rt = rt();
+    let bound = if thorough { 3 } else { 2 };
+    for (cfg, cache) in [("wv1", "none"), ("exp", "default"), ("wv1", "default"), ("exp", "none")] {
+        out.push(format!("fx.reset {cfg} {cache} off"));
+        out.push(format!("ck {}", key_hex(&rt)));
+        let pool = user_pool(rng, 5);
+        for u in &pool {
+            for v in 1..=6u64 {
+                for fresh in [true, false] {
+                    out.push(format!("vrf {} {} {} {}", hex_or_dash(u), if fresh { "F" } else { "S" }, v, show_label(&vrf_label(&rt, cfg, u, fresh, v))));
+                }
+            }
+        }
+        let pair = |rng: &mut Rng, i: usize| format!("{} {}", hex_or_dash(&pool[i]), hex_or_dash(&rng.bytes(3)));
+        // two publishers on the empty directory, disjoint labels
+        out.push(format!("sch.enum {bound} {} | {}", pair(rng, 0), pair(rng, 1)));
+        out.push(format!("fx.publish {} {}", pair(rng, 0), pair(rng, 1)));
+        // two publishers updating the SAME label
+        out.push(format!("sch.enum {bound} {} | {}", pair(rng, 0), pair(rng, 0)));
+        // an update and an insert
+        out.push(format!("sch.enum {bound} {} | {} {}", pair(rng, 1), pair(rng, 2), pair(rng, 3)));
+        out.push(format!("fx.publish {} {}", pair(rng, 2), pair(rng, 3)));
+        // three publishers
+        out.push(format!("sch.enum {} {} | {} | {}", bound.min(2), pair(rng, 0), pair(rng, 4), pair(rng, 2)));
+        if !thorough {
+            break;
         }
     }
 }
